@@ -139,6 +139,56 @@ def check_merge(sa, sb, ha, hb, label, reload_right=False):
     return out
 
 
+def check_built(spec, ha, hb, case):
+    """A Stack assembled by Stack.build (its thresholds are NaN) has no cuts in common with a Stack that was booked
+    with thresholds, nor with a built one of another length: every merge must raise and leave both untouched."""
+    import histogrammar as hg
+
+    args = {"spec": spec, "ha": core.show_evs(ha), "hb": core.show_evs(hb), "case": case}
+    out = []
+    child = spec["v"]
+    nb = len(spec["p"]) + 1
+
+    def operands():
+        if case == "ordinary-vs-built":
+            return core.mk(spec, ha), hg.Stack.build(*[core.mk(child, hb) for _ in range(nb)])
+        if case == "ordinary-vs-reloaded-built":
+            return core.mk(spec, ha), hg.Factory.fromJson(hg.Stack.build(*[core.mk(child, hb) for _ in range(nb)]).toJson())
+        return (hg.Stack.build(*[core.mk(child, ha) for _ in range(nb)]),
+                hg.Stack.build(*[core.mk(child, hb) for _ in range(nb + 1)]))
+
+    for op in ("a+b", "b+a", "a+=b", "b+=a"):
+        try:
+            a, b = operands()
+            da, db = a.toJson(), b.toJson()
+        except Exception as e:
+            return [core.v_exc(PROP, "built", "building the operands raised", e, args)]
+        raised = None
+        try:
+            if op == "a+b":
+                a + b
+            elif op == "b+a":
+                b + a
+            elif op == "a+=b":
+                a += b
+            else:
+                b += a
+        except Exception as e:
+            raised = e
+        oa = dict(args, op=op)
+        opname = "__iadd__" if "=" in op else "__add__"
+        if raised is None:
+            out.append(FW.violation(PROP, "built", "Stack.%s [%s]" % (opname, case), "merged-silently", oa, {}))
+            continue
+        for nm, o, d0 in (("a", a, da), ("b", b, db)):
+            d = C.diff(o.toJson(), d0, tol_keys=())
+            if d:
+                out.append(FW.violation(PROP, "built", "Stack.%s [%s]" % (opname, case), "operand-changed-by-rejected-merge", oa,
+                                        {"operand": nm, "diff": d, "exception": repr(raised)[:200]}))
+                break
+    return out
+
+
 def a_is_foreign(sa, sb):
     return sa["t"] != sb["t"]
 
@@ -172,6 +222,13 @@ def _tree(task):
         if tier != "quick":
             acc.add(check_merge(spec, ns, h1, h1, label, reload_right=True))
             acc.n("merge_attempts", 4)
+    if spec["t"] == "Stack" and not any(n.get("tr") for _, _, n in S.node_ids(spec)):
+        for case in ("ordinary-vs-built", "ordinary-vs-reloaded-built", "built-vs-longer-built"):
+            for ha, hb in states:
+                acc.add(check_built(spec, ha, hb, case))
+                acc.n("merge_attempts", 4)
+                acc.n("expected_to_raise", 4)
+                acc.n("built_stack_attempts", 4)
     # Select forwards attribute look-ups to its cut, so a Select wrapping the very same tree looks like that tree to any
     # merge that checks attributes instead of types
     wrapped = {"t": "Select", "q": "s", "v": spec}
@@ -234,6 +291,8 @@ def run(tier, seed):
 
 
 def replay(driver, args):
+    if driver == "built":
+        return check_built(args["spec"], core.unshow_evs(args["ha"]), core.unshow_evs(args["hb"]), args["case"])
     vs = check_merge(args["sa"], args["sb"], core.unshow_evs(args["ha"]), core.unshow_evs(args["hb"]), args["label"],
                      args.get("reload_right", False))
     return vs
